@@ -24,9 +24,9 @@ import (
 	executiongroup "github.com/furiko-io/furiko/apis/execution"
 	execution "github.com/furiko-io/furiko/apis/execution/v1alpha1"
 	"github.com/furiko-io/furiko/pkg/execution/controllers/jobcontroller"
-	"github.com/furiko-io/furiko/pkg/execution/validation"
 	"github.com/furiko-io/furiko/pkg/execution/taskexecutor/podtaskexecutor"
 	jobutil "github.com/furiko-io/furiko/pkg/execution/util/job"
+	"github.com/furiko-io/furiko/pkg/execution/validation"
 	"github.com/furiko-io/furiko/pkg/runtime/reconciler"
 	"github.com/furiko-io/furiko/pkg/utils/ktime"
 
@@ -840,6 +840,10 @@ func (j *JL) Drain(budget int) bool {
 			if jumps >= 6 {
 				return true
 			}
+			if jumps >= 1 {
+				// quiet again after the clock moved and the armed re-sync fired: every deadline up to now has been served
+				j.emit("Quiet", Label{A: "Quiet"}, nil)
+			}
 			steps := []int{1, 2, 3, 5, 1000, 4000}
 			j.Apply(Label{A: "Tick", D: steps[jumps]})
 			jumps++
@@ -981,48 +985,55 @@ func JobLifeMain(args []string) (interface{}, error) {
 				return nil, fmt.Errorf("schedule %d: %v", r, err)
 			}
 			s.Cfg.Delivered = true
-			j := NewJL(s.Cfg, tr, r)
-			j.emit("Reset", Label{A: "Reset"}, nil)
-			drifted := false
-			for si, l := range s.Steps {
-				if l.A == "Kubelet" || l.A == "KubeletGone" || l.A == "ExternalDelete" || l.A == "NodeDown" {
-					l.K = j.podName(l.I, l.R)
-				}
-				exp := l.E
-				l.E = nil
-				if !apply(j, l) {
-					sum.Diverged++
-					sum.DivergedAt[l.A]++
-					break
-				}
-				if exp != nil && !drifted {
-					got := j.digest()
-					sum.Compared++
-					if got != *exp {
-						drifted = true
-						sum.Drift++
-						sum.DriftAt[l.A+":"+l.X]++
-						if len(sum.DriftSample) < 8 {
-							sum.DriftSample = append(sum.DriftSample, fmt.Sprintf("run %d step %d %s %s: spec %+v real %+v", r, si, l.A, l.X, *exp, got))
+			// a directed schedule is run twice: followed by the drain alone, and followed by seeded random steps and the drain
+			variants := []int{0}
+			if *suffix > 0 {
+				variants = []int{0, *suffix}
+			}
+			for _, nsuffix := range variants {
+				j := NewJL(s.Cfg, tr, r)
+				j.emit("Reset", Label{A: "Reset"}, nil)
+				drifted := false
+				for si, l := range s.Steps {
+					if l.A == "Kubelet" || l.A == "KubeletGone" || l.A == "ExternalDelete" || l.A == "NodeDown" {
+						l.K = j.podName(l.I, l.R)
+					}
+					exp := l.E
+					l.E = nil
+					if !apply(j, l) {
+						sum.Diverged++
+						sum.DivergedAt[l.A]++
+						break
+					}
+					if exp != nil && !drifted {
+						got := j.digest()
+						sum.Compared++
+						if got != *exp {
+							drifted = true
+							sum.Drift++
+							sum.DriftAt[l.A+":"+l.X]++
+							if len(sum.DriftSample) < 8 {
+								sum.DriftSample = append(sum.DriftSample, fmt.Sprintf("run %d step %d %s %s: spec %+v real %+v", r, si, l.A, l.X, *exp, got))
+							}
 						}
 					}
 				}
-			}
-			// directed schedules: continue from the reached state with seeded random steps before draining
-			for k := 0; k < *suffix; k++ {
-				en := j.Enabled(rng, j.W.Now()+3, *faultP, *applied)
-				if len(en) == 0 {
-					break
+				// directed schedules: continue from the reached state with seeded random steps before draining
+				for k := 0; k < nsuffix; k++ {
+					en := j.Enabled(rng, j.W.Now()+3, *faultP, *applied)
+					if len(en) == 0 {
+						break
+					}
+					if !apply(j, en[rng.Intn(len(en))]) {
+						break
+					}
 				}
-				if !apply(j, en[rng.Intn(len(en))]) {
-					break
+				if !j.Finale(3000) {
+					sum.DrainFailed++
 				}
+				sum.Runs++
+				r++
 			}
-			if !j.Finale(3000) {
-				sum.DrainFailed++
-			}
-			sum.Runs++
-			r++
 		}
 	default:
 		return nil, fmt.Errorf("unknown mode %q", *mode)
